@@ -240,7 +240,7 @@ def validateOutboundInternal (pk : Packet) (s : Option Settings) (connectSession
     (r : Option Resolution) : VRes :=
   match pk with
   | .auth p => vAuthInternal p s
-  | .connect _ => .ok ()
+  | .connect p => vConnectOutbound p
   | .disconnect p => vDisconnectInternal p s connectSessionExpiry
   | .pingreq => .ok ()
   | .puback p => vAckInternal p s
